@@ -37,8 +37,7 @@ class Check:
         out = []
         for p in registry.PROOFS.values():
             if self.prop in p.props:
-                tiers = getattr(p, "tiers", None)
-                if p.scope == "program" and self.program_units and not self.program_units.in_tier(p.pid, tier, seed):
+                if tier == "quick" and getattr(p, "tier", "quick") != "quick":
                     continue
                 out.append(p.pid)
         return out
@@ -64,7 +63,7 @@ def _build():
     if _built:
         return
     _built = True
-    bp_mods = ["py_bp", "py_bp_struct"]
+    bp_mods = ["py_bp", "py_bp_struct", "gen_py"]
     for pr, ex in [
         ("C02", "Python decode: process_base_type (decode) proved against the bit-view invariant for unsigned and intN "
                 "accessors; sign lemmas; decode-side cursor/frame contracts of every processor class"),
